@@ -145,3 +145,53 @@ Theorem created_files_species : forall sc a t0,
   map f_species (create_files sc (Mapped a) t0) = [species_union (minus (all_sets sc) a) t0] /\
   forall st, map f_species (add_mapped_file_c a t0 st) = map f_species st ++ [species_union a t0].
 Proof. intros. repeat split; try reflexivity. intro st. unfold add_mapped_file_c. now rewrite map_app. Qed.
+
+(* ---- none lost on every write path ------------------------------------------------------------------ *)
+(* The repaired writer accepts a species-indexed value only if every species of it has a place in the
+   species dimension of the file; otherwise it refuses (ValueError).  With [species_exact] (what was
+   accepted reads back with exactly its species) nothing can be dropped silently. *)
+Theorem accepted_species_are_in_dimension : forall L m v ps,
+  field_patches true L m v = inl ps ->
+  match v with
+  | FSp mp => unknown_species L mp = false
+  | FSpArr mp => unknown_species L mp = false
+  | FSpTm mp => unknown_species L mp = false
+  | _ => True
+  end.
+Proof.
+  intros L m v ps H. unfold field_patches in H.
+  destruct v as [| s | a | mp | mp | l | mp]; auto; destruct (fm_shape m); try discriminate;
+    simpl in H; destruct (unknown_species L mp); auto; discriminate.
+Qed.
+
+Theorem species_outside_dimension_refused : forall L m v,
+  match v with
+  | FSp mp => fm_shape m = ShTS /\ unknown_species L mp = true
+  | FSpArr mp => fm_shape m = ShTSP /\ unknown_species L mp = true
+  | FSpTm mp => fm_shape m = ShTSM /\ unknown_species L mp = true
+  | _ => False
+  end -> field_patches true L m v = inr EValue.
+Proof.
+  intros L m v H. unfold field_patches.
+  destruct v as [| s | a | mp | mp | l | mp]; try contradiction; destruct H as [Hs Hu]; rewrite Hs; simpl; now rewrite Hu.
+Qed.
+
+(* add(), save() and create_associated() all write through the same guarded writer: in the model the three
+   paths are [write_traj_c] -> [write_fields] -> [write_field] -> [field_patches] *)
+Theorem every_write_path_is_the_guarded_writer : forall fixed sc order r1 i t ts st,
+  add_all_c fixed sc order i (t :: ts) st =
+    match write_traj_c fixed sc order i t st with
+    | inr e => (st, Some (i, e))
+    | inl st' => add_all_c fixed sc order (S i) ts st'
+    end
+  /\ map_all_c fixed sc r1 order i (t :: ts) st =
+    match load_traj_c fixed sc r1 i st with
+    | inr e => (st, Some (i, e))
+    | inl _ => match write_traj_c fixed sc order i t st with
+               | inr e => (st, Some (i, e))
+               | inl st' => map_all_c fixed sc r1 order (S i) ts st'
+               end
+    end
+  /\ forall fsp p m v c, write_field fixed fsp p m v c =
+       match field_patches fixed fsp m v with inl ps => inl (apply_patches p ps c) | inr e => inr e end.
+Proof. intros. repeat split; reflexivity. Qed.
